@@ -171,6 +171,16 @@ def _app_chan_events(spec, value):
         chan['events'].append(other)
     elif value == 'speak_after':
         chan['events'].append(mk_event('Speak', 'spk2', params=['snd.two', '', ''], start=3.0, end=4.5))
+    elif isinstance(value, str) and value.startswith('far_repeat:'):
+        # a large scene (several KB in binary form): events with long, irregular ramps; the last repeats the ramp of the first, so
+        # the stream holds a long match whose distance grows with the number of events in between
+        def ramp(seed: int, n: int = 120):
+            return mk_curve([[0.125 * i + ((i * 37 + seed) % 16) / 128.0, Q((i * i * 7 + seed * 13 + i * seed) % 256), DEF_CURVE] for i in range(n)])
+        k = int(value.split(':')[1])
+        chan['events'].append(mk_event('LookAt', 'far_first', params=['!enemy', '', ''], start=0.25, end=1.25, ramp=ramp(1)))
+        for j in range(k):
+            chan['events'].append(mk_event('LookAt', f'fill{j}', params=['!enemy', '', ''], start=0.25, end=1.25, ramp=ramp(2 + j, 100 + 7 * (j % 3))))
+        chan['events'].append(mk_event('LookAt', 'far_last', params=['!enemy', '', ''], start=0.25, end=1.25, ramp=ramp(1)))
 
 
 def _app_channels(spec, value):
@@ -1080,6 +1090,11 @@ def shard(spec) -> core.Acc:
         if perms:
             acc.sample({'part': PART, 'mode': 'image', 'version': 3,
                         'entries': [[FILENAMES[i], IMAGE_MENU[i][0], IMAGE_MENU[i][1]] for i in perms[-1]]}, 1)
+    elif kind == 'image_big':
+        for k in spec[1]:
+            for version in (2, 3):
+                check_image_case(acc, {'part': PART, 'mode': 'image', 'version': version, 'light': True,
+                                       'entries': [[FILENAMES[0], 'S', [['chan_events', f'far_repeat:{k}']]]]})
     elif kind == 'sample':
         check_sample(acc, {'part': PART, 'mode': 'sample', 'file': spec[1]})
     return acc
@@ -1100,6 +1115,9 @@ def run(ctx: core.Ctx) -> None:
         shards.append(('imageN', chunk))
     for chunk in core.chunked(summary_pairs(), 30):
         shards.append(('image1', 'S', chunk, ctx.pick((3,), (2, 3))))
+    # scenes of 2..40 KB (binary) holding a long repeat at growing distances (the compressed container has to restore them exactly)
+    for ks in ([0, 1], [2, 3], [5, 8], [13, 21], [40]) if ctx.quick else ([0, 1], [2, 3], [4, 5], [6, 8], [10, 13], [17, 21], [30], [40], [64]):
+        shards.append(('image_big', ks))
     shards += [('sample', f) for f in SAMPLES]
     n_scene = 0
     for focus in FOCI:
